@@ -153,17 +153,25 @@ def h08a(max_size: int, prefer: bool) -> bool:
     cfg = CONFIGS[S("cfg")]
     with concrete():
         m = build_message(cfg)
-    try:
-        wire = m.to_wire(max_size=max_size, prefer_truncation=prefer)
-    except dns.exception.TooBig:
-        hit("toobig")
-        return not prefer or S("cfg") >= 0  # TooBig is always an allowed outcome; with prefer it means even the fixed part does not fit
-    hit("rendered")
+        # size of the fixed part (header, question, OPT, TSIG; no records), rendered without a limit
+        m0 = build_message(cfg)
+        m0.answer, m0.authority, m0.additional = [], [], []
+        fixed = len(m0.to_wire())
     # documented effective limit: 0 = the request's payload (else 65535); clamped to 512..65535
     limit = max_size
     if limit == 0:
         limit = m.request_payload if m.request_payload != 0 else 65535
     limit = 512 if limit < 512 else (65535 if limit > 65535 else limit)
+    try:
+        wire = m.to_wire(max_size=max_size, prefer_truncation=prefer)
+    except dns.exception.TooBig:
+        hit("toobig")
+        if not prefer or cfg["pad"]:
+            return True  # with padding the unchanged library raises TooBig when the padded form does not fit: left unconstrained
+        # with prefer_truncation every record set may be dropped, so TooBig is legitimate only when the fixed part
+        # itself does not fit (64 octets of slack: reservations are made for the uncompressed OPT/TSIG)
+        return limit < fixed + 64
+    hit("rendered")
     return check_wire(m, wire, cfg, limit)
 
 
